@@ -343,18 +343,39 @@ theorem owned_scoped_dies_with_last_functor (s : St) (k : Nat) (p : Option Nat)
   simp only [hT, hK]
   cases p <;> rfl
 
-/-- … and as long as some functor copy still holds it, or nothing is owned, nothing is disconnected -/
+/-- … and as long as some functor copy still holds it, or nothing is owned, nothing is disconnected.
+
+    (model round 3: the statement of the previous model round had only `hT` and `hK`; `collectStep` now has a third
+    kind of owned object (signal objects, `ownedG`), so "no owned object is unheld" has a third conjunct `hG`.
+    Without it the statement is false: `owned_scoped_needs_hG` below is the witness (an unheld functor-owned
+    signal object dies in `collect`)) -/
 theorem owned_scoped_lives_while_held (s : St)
     (hT : s.ownedT.find? (fun o => !heldT s o) = none)
-    (hK : s.ownedK.find? (fun q => !heldK s q.1) = none) :
+    (hK : s.ownedK.find? (fun q => !heldK s q.1) = none)
+    (hG : s.ownedG.find? (fun q => !heldK s q.1) = none) :
     collectStep s = none ∧ collect s = s := by
   have h1 : collectStep s = none := by
-    unfold collectStep; simp only [hT, hK]
+    unfold collectStep; simp only [hT, hK, hG]
   refine ⟨h1, ?_⟩
   unfold collect
-  cases (s.ownedT.length + s.ownedK.length) with
+  cases (s.ownedT.length + s.ownedK.length + s.ownedG.length) with
   | zero => rfl
   | succ n => simp [collectN, h1]
+
+/-- a slot variable holds a functor copy that owns scoped connection `7` -/
+def exStHeld : St :=
+  { exStK with ownedK := [(7, some 5)], S := [(0, { isVoid := false, slot := { blocked := false, rep := some { call := true, fn := some (.owner 9 [] [7]) } } })] }
+
+example : collect exStHeld = exStHeld :=
+  (owned_scoped_lives_while_held exStHeld rfl (by decide) rfl).2
+
+/-- the witness for `hG`: nothing of `ownedT`/`ownedK` is unheld, but the functor-owned signal object `4`
+    (owner id 7, held by no functor copy) dies in `collectStep`: its name leaves `G` -/
+theorem owned_scoped_needs_hG :
+    ∃ s : St, s.ownedT.find? (fun o => !heldT s o) = none ∧ s.ownedK.find? (fun q => !heldK s q.1) = none ∧
+      collectStep s ≠ none ∧ collect s ≠ s :=
+  ⟨{ G := [(4, { obj := 9, fl := .I, impl := none, trk := 0, lvl := 0 })], ownedG := [(7, 4)], next := 8 },
+   rfl, rfl, by decide, fun h => absurd (congrArg St.ownedG h) (by decide)⟩
 
 example : collectStep { exStK with ownedK := [(7, some 5)] } =
     some (disconnectCell { exStK with ownedK := [] } 5) := by
